@@ -7,10 +7,13 @@
 (*     (None = -1 when absent).                                            *)
 (* L1  outside the window nothing is released, whoever asks.               *)
 (* L2  what each port does: every port decides on the full entry with the  *)
-(*     inclusive window of Account::check_within_valid_time, except the    *)
-(*     RADIUS port, which reads the window from the ACCESS-REDUCED entry   *)
-(*     (strict comparison): an asker whose access profile does not grant   *)
-(*     account_valid_from / account_expire sees an open window.            *)
+(*     inclusive window of Account::check_within_valid_time.  The RADIUS   *)
+(*     port additionally applies a strict comparison to the window as the  *)
+(*     ASKER may read it (access-reduced entry): an asker whose profile    *)
+(*     does not grant account_valid_from / account_expire sees that second *)
+(*     window as open.  (Before fix 9e5c126 the RADIUS port applied ONLY   *)
+(*     the second check: L2RelBefore, kept to document the repaired        *)
+(*     defect.)                                                            *)
 (***************************************************************************)
 EXTENDS Integers, TLC
 
@@ -39,9 +42,13 @@ L2Rel(port, asker, vf, ex, t) ==
   IF ~AskerHasIdentity(asker, t, vf, ex) THEN FALSE
   ELSE IF port = "radius"
        THEN /\ MayReadRadius(asker)
-            /\ IF SeesWindow(asker) THEN StrictWithin(t, vf, ex) ELSE TRUE
+            /\ Within(t, vf, ex)                                              \* full entry (fix 9e5c126)
+            /\ IF SeesWindow(asker) THEN StrictWithin(t, vf, ex) ELSE TRUE    \* reduced entry
        ELSE Within(t, vf, ex)
 
-\* the reproduced defect (known_findings.d/C49.json): exactly this class of observation
-KnownRadius(o) == o.port = "radius" /\ ~SeesWindow(o.asker) /\ MayReadRadius(o.asker)
+\* the RADIUS port as it was before fix 9e5c126 (finding C49-radius-window-read-from-reduced-entry)
+L2RelBefore(port, asker, vf, ex, t) ==
+  IF port = "radius" /\ AskerHasIdentity(asker, t, vf, ex)
+  THEN MayReadRadius(asker) /\ (IF SeesWindow(asker) THEN StrictWithin(t, vf, ex) ELSE TRUE)
+  ELSE L2Rel(port, asker, vf, ex, t)
 =============================================================================
